@@ -59,10 +59,10 @@ def choose(rng, st):
     names = [r[0] for r in st["rows"]]
     nucleic = st["mol"] in ("dna", "rna")
     if st["kind"] == "coll":
-        ops = ["TakeSeqs", "Degap", "DeepCopy"] + (["Rc", "ToRna", "ToDna"] if nucleic else [])
+        ops = ["TakeSeqs", "TakeSeqs", "Degap", "DeepCopy", "CallerReuses"] + (["Rc", "ToRna", "ToDna"] if nucleic else [])
     else:
         ops = ["Slice", "Slice", "Slice", "Index", "Stride", "TakePositions", "TakeSeqs", "OmitGapPos", "NoDegenerates",
-               "Filtered", "DegapRel", "SampleRepl", "SamplePerm", "Concat", "ConcatSlices", "ConcatSlices", "ToType", "Degap", "DeepCopy"]
+               "Filtered", "DegapRel", "SampleRepl", "SamplePerm", "Concat", "ConcatSlices", "ConcatSlices", "ToType", "Degap", "DeepCopy", "CallerReuses", "CallerReuses"]
         ops += ["Rc", "Rc", "ToRna", "ToDna"] if nucleic else []
     for _ in range(50):
         op = rng.choice(ops)
@@ -137,6 +137,8 @@ def choose(rng, st):
             return op, [rng.random() < 0.5]
         if op == "DeepCopy":
             return op, [rng.random() < 0.5]
+        if op == "CallerReuses":
+            return op, [rng.choice(["args", "args", "returned"])]
         if op in ("Rc", "ToRna", "ToDna", "Degap"):
             return op, []
     return "DeepCopy", [True]
